@@ -29,6 +29,9 @@ type (
 	Matrix  [][]float64
 )
 
+// PointRef is a defined type whose underlying type is a pointer: *PointRef is a pointer to it, not **Point
+type PointRef *Point
+
 type Point struct {
 	X, Y int
 }
